@@ -343,6 +343,29 @@ CHECKS = {
               "-2..2 and unit arrays; levels limited per system size to stay within TLC's 32-bit integers; space-group routes "
               "on axis-aligned cubic/tetragonal lattices only; the step from basis cases to all arrays relies on linearity."),
         design="5/C07 and 11.2"),
+    "C15": dict(
+        text=("ApiHistory.tla models one Phonopy object, the arrays its caller holds and one copy(), with one action per "
+              "public state-changing operation (force_constants=, nac_params= (Wang / Gonze-Lee / None), masses=, "
+              "symmetrize_force_constants, symmetrize_force_constants_by_space_group, set_force_constants_zero_with_radius, "
+              "dataset= (type 1/2), displacements=, forces=, produce_force_constants (full/compact), "
+              "supercells_with_displacements, copy(), getters), 8 query kinds and the caller's own actions (mutate or drop a "
+              "held array, act on the copy). The mechanism side transcribes _set_dynamical_matrix, the group-velocity "
+              "rebuild, the lazily built short-range force constants and the displaced-supercells cache; the requirement "
+              "side states what a freshly constructed object given the current structure, force constants, NAC parameters "
+              "and masses answers (FreshEquivalent, Coherent, DmExists, MassesConsistent, ScdCoherent, CopyIndependent, "
+              "NoInput/OutputAlias, NoInput/OutputMutation, EnvFrame). Contents are abstracted by provenance (cur/old), which "
+              "makes the state space finite: TLC checks the requirement exhaustively for histories of ANY length, and every "
+              "seeded mechanism defect (13 'Forget' classes) is shown to be caught. Random histories (<= 30 calls), TLC "
+              "-simulate behaviours replayed on the real API, a scripted census of every hand-in/hand-out point and the "
+              "repository's own tests under a tracing plugin are recorded and validated by TLC against ApiHistoryTrace "
+              "(every query compared against a fresh object for all three dynamical-matrix classes and both layouts). The "
+              "documented no-copy aliasing (D15) is decided by TLC too and reported under 13 'alias:' keys listed in "
+              "known_findings.json; aliasing anywhere else, or any staleness, is a violation."),
+        note=("Trusted: TLC; the projection (content hashes, object identity, np.shares_memory, tolerance match of "
+              "Born/dielectric, first-sighting attribution of the short-range constants' provenance); numpy. Bounds: <= 1 "
+              "(quick) / 3 (thorough) live caller handles in the exhaustive runs; 4 crystals; finite-difference solver only; "
+              "is_symmetry=True. Not modelled: IterMesh/init_mesh result snapshots, dataset=None, ph2ph."),
+        design="5/C15 and 11.2"),
 }
 
 NOT_BUILT = "check under construction in this round; not yet claimed"
@@ -385,7 +408,7 @@ def main():
                       serves_properties=[c["property_id"] for c in checks],
                       kind_free_text="TLC 1.8 explicit-state model checker on /verif/spec/*.tla; harness/ replays/validates against /repo")],
         checks=checks,
-        notes="See DESIGN.md. known_findings.json lists recorded and fixed defects.",
+        notes="See DESIGN.md (section 11 describes the tree as built). known_findings.json lists recorded (C15 documented no-copy aliasing) and fixed defects; seeded/ holds the seeded changes and seeded/RESULTS.json which check detects which.",
         not_applicable=na,
     )
     with open(os.path.join(VERIF, "MANIFEST.json"), "w") as f:
